@@ -13,3 +13,6 @@ Check Props.C12.C12_termination_unparks :
 Check Props.C12.C12_queue_bound :
   forall tr s a x n, run init tr = Acc s -> actors s a = Some x -> m_bound (a_mb x) = Some n ->
     length (m_queue (a_mb x)) <= n + length (m_parked (a_mb x)) /\ sub (powners (a_mb x)) (qids (a_mb x)).
+Check Props.C12.C12_a_parked_send_does_not_return :
+  forall s o r s' p x, step s (EvRet o r) = Acc s' -> ops s o = Some p -> op_reg p = None ->
+  actors s (op_a p) = Some x -> op_imm p = None -> op_w p = true -> parked_op x o = false.
